@@ -54,3 +54,172 @@ def inversion_native(vc):
         gf[k] = (-f(theta + 2 * e) + 8 * f(theta + e) - 8 * f(theta - e) + f(theta - 2 * e)) / 12e-4
     vc.ensures("evidence_value_variant_agrees", abs(v2 - lml) <= 1e-9 * max(1.0, abs(lml)))
     vc.ensures("evidence_gradient_is_true_gradient", bool(np.allclose(g, gf, rtol=2e-4, atol=2e-5 * max(1.0, float(np.abs(gf).max())))))
+
+
+# ================================================================================================
+# proof layer: the real posterior / evidence code over abstract matrices (pyvc.matalg)
+# ================================================================================================
+from pyvc import sym as S
+from pyvc.sym import Sym, Unsupported
+from pyvc.tensor import Tensor, SymList
+from pyvc import matalg as M
+
+INV = "inference.gp.inversion"
+
+
+class InvState:
+    """y = A x + noise, noise ~ N(0, S); prior x ~ N(m, K).  Ghost kernel / mean under their C10 contracts."""
+
+    def __init__(self, vc):
+        self.vc = vc
+        self.nd, self.np_ = vc.int("n_data", lo=1), vc.int("n_parameters", lo=1)
+        self.nm, self.nc = vc.int("n_mean_pars", lo=1), vc.int("n_cov_pars", lo=1)
+        nd, npar = self.nd, self.np_
+        self.A = M.atom("A", nd, npar)
+        self.y = M.atom("y", nd)
+        self.Sg = M.atom("Sigma", nd, nd, symmetric=True)
+        self.Si = M.inverse_of(self.Sg)
+        self.K = M.atom("K", npar, npar, symmetric=True)
+        self.m0 = M.atom("m0", npar)
+        self.theta = vc.vector("theta", self.nm + self.nc)
+        st = self
+
+        class Cov:
+            def get_attr(self, I, name):
+                return getattr(self, name)
+
+            def build_covariance(self, th):
+                st.check("cov", th)
+                return st.K
+
+            def covariance_and_gradients(self, th):
+                st.check("cov", th)
+                return st.K.copy(), SymList(st.nc, lambda k: M.atom("dK", npar, npar, symmetric=True, params=(k,)))
+
+        class Mean:
+            def get_attr(self, I, name):
+                return getattr(self, name)
+
+            def build_mean(self, th):
+                st.check("mean", th)
+                return st.m0
+
+            def mean_and_gradients(self, th):
+                st.check("mean", th)
+                return st.m0.copy(), SymList(st.nm, lambda k: M.atom("dm0", npar, params=(k,)))
+
+        self.obj = vc.obj(INV, "GpLinearInverter", A=self.A, y=self.y, sigma=self.Sg, inv_sigma=self.Si, I=M.identity(npar),
+                          cov=Cov(), mean=Mean(), n_hyperpars=self.nm + self.nc, mean_slice=slice(0, self.nm),
+                          cov_slice=slice(self.nm, self.nm + self.nc))
+
+    def check(self, which, th):
+        lo, ln = (0, self.nm) if which == "mean" else (self.nm, self.nc)
+        vc = self.vc
+        from pyvc.tensor import dim_eq
+        if not isinstance(th, Tensor) or th.ndim != 1 or not dim_eq(th.shape[0], ln):
+            vc.ensures(f"{which}_hyperparameters_are_its_slice", False)
+            return
+        vc.ensures_forall(f"{which}_hyperparameters_are_its_slice", ln,
+                          lambda k: S.cmp("==", th.at(k), self.theta.at(S.add(k, lo))))
+
+
+@contract("C17", "posterior", native=False, replay_with="inversion_native")
+def posterior(vc):
+    """calculate_posterior: the covariance solves (I + K A^T S^-1 A) Sigma = K, i.e. Sigma = (K^-1 + A^T S^-1 A)^-1,
+    and the mean is m + Sigma A^T S^-1 (y - A m): the conjugate linear-Gaussian posterior.  The mean-only path
+    returns the same mean."""
+    st = InvState(vc)
+    mean, cov = vc.call(st.obj, "calculate_posterior", st.theta)
+    W = st.A.T @ st.Si @ st.A
+    X = M.identity(st.np_) + st.K @ W
+    vc.ensures("covariance_solves_the_posterior_equation", M.mat_eq(X @ cov, st.K))
+    u = st.A.T @ (st.Si @ (st.y - st.A @ st.m0))
+    vc.ensures("mean_is_prior_mean_plus_gain_times_residual", M.mat_eq(mean, cov @ u + st.m0))
+    mean2 = vc.call(st.obj, "calculate_posterior_mean", st.theta)
+    vc.ensures("mean_only_path_agrees", M.mat_eq(mean2, mean))
+
+
+def _ev_datom(st, k):
+    def d(a, t):
+        if a.name == "K" and k[0] == "cov":
+            return M.atom("dK", st.np_, st.np_, symmetric=True, params=(k[1],))
+        if a.name == "m0" and k[0] == "mean":
+            return M.atom("dm0", st.np_, params=(k[1],))
+        return None
+    return d
+
+
+def _evidence(st):
+    J = st.A @ st.K @ st.A.T + st.Sg
+    r = st.y - st.A @ st.m0
+    Ji = M.inverse_of(J)
+    return J, r, Ji, S.sub(S.mul(S.div(-1, 2), r @ (Ji @ r)), S.mul(S.div(1, 2), M.logdet_of(J)))
+
+
+def _evidence_grad(st, k):
+    J, r, Ji, _ = _evidence(st)
+    d = _ev_datom(st, k)
+    r2 = r[:, None]
+    dquad = M.dmat(r2.T @ Ji @ r2, d).scalar()
+    dJ = M.dmat(J, d)
+    dlogdet = M.trace_of(Ji @ dJ) if dJ.nf else 0
+    return S.sub(S.mul(S.div(-1, 2), dquad), S.mul(S.div(1, 2), dlogdet))
+
+
+@contract("C17", "evidence", native=False, replay_with="inversion_native")
+def evidence(vc):
+    """marginal_likelihood = log N(y; A m, A K A^T + S) + n/2 log 2 pi"""
+    st = InvState(vc)
+    val = vc.call(st.obj, "marginal_likelihood", st.theta)
+    vc.ensures("value_is_gaussian_log_density_of_the_data", S.cmp("==", val, _evidence(st)[3]))
+
+
+@contract("C17", "evidence_gradient", native=False, replay_with="inversion_native")
+def evidence_gradient(vc):
+    st = InvState(vc)
+    val, grad = vc.call(st.obj, "marginal_likelihood_gradient", st.theta)
+    vc.ensures("value_is_gaussian_log_density_of_the_data", S.cmp("==", val, _evidence(st)[3]))
+    vc.ensures("one_gradient_entry_per_hyperparameter", vc.ndim(grad) == 1 and S.cmp("==", grad.shape[0], st.nm + st.nc))
+    vc.ensures_forall("mean_parameter_gradient_is_true_derivative", st.nm,
+                      lambda k: S.cmp("==", grad.at(k), _evidence_grad(st, ("mean", S.z(k)))))
+    vc.ensures_forall("covariance_parameter_gradient_is_true_derivative", st.nc,
+                      lambda k: S.cmp("==", grad.at(S.add(k, st.nm)), _evidence_grad(st, ("cov", S.z(k)))))
+
+
+@contract("C17", "constructor", native=False, replay_with="inversion_native")
+def constructor(vc):
+    """__init__: the data covariance is diag(y_err^2), inv_sigma is its inverse, I is the identity of the parameter
+    space, and the hyper-parameter vector is laid out as [mean parameters, covariance parameters]"""
+    nd, npar, d = vc.int("n_data", lo=1), vc.int("n_parameters", lo=1), vc.int("d", lo=1)
+    nm, nc = vc.int("n_mean_pars", lo=1), vc.int("n_cov_pars", lo=1)
+    y = vc.vector("y", nd)
+    e = vc.vector("y_err", nd, pos=True)
+    A = vc.matrix("A", nd, npar)
+    pos = vc.matrix("positions", npar, d)
+
+    class Part:
+        def __init__(self, n):
+            self.n_params, self.bounds, self.hyperpar_labels, self.got = n, [], [], None
+
+        def get_attr(self, I, name):
+            return getattr(self, name)
+
+        def pass_spatial_data(self, x):
+            self.got = x
+
+    cov, mean = Part(nc), Part(nm)
+    obj = vc.new(INV, "GpLinearInverter", y=y, y_err=e, model_matrix=A, parameter_spatial_positions=pos,
+                 prior_covariance_function=cov, prior_mean_function=mean)
+    sg, isg, I_ = vc.attr(obj, "sigma"), vc.attr(obj, "inv_sigma"), vc.attr(obj, "I")
+    vc.ensures_forall("sigma_is_diagonal_of_squared_errors", (nd, nd),
+                      lambda i, j: S.cmp("==", sg.at(i, j), S.ite(S.cmp("==", i, j), S.mul(e.at(i), e.at(i)), 0)))
+    vc.ensures_forall("inv_sigma_is_its_inverse", (nd, nd),
+                      lambda i, j: S.cmp("==", S.mul(isg.at(i, j), S.mul(e.at(i), e.at(i))), S.ite(S.cmp("==", i, j), 1, 0)))
+    vc.ensures_forall("identity_of_parameter_space", (npar, npar),
+                      lambda i, j: S.cmp("==", I_.at(i, j), S.ite(S.cmp("==", i, j), 1, 0)))
+    ms, cs = vc.attr(obj, "mean_slice"), vc.attr(obj, "cov_slice")
+    vc.ensures("layout_mean_then_covariance", S.And(S.cmp("==", ms.start, 0), S.cmp("==", ms.stop, nm),
+                                                    S.cmp("==", cs.start, nm), S.cmp("==", cs.stop, nm + nc),
+                                                    S.cmp("==", vc.attr(obj, "n_hyperpars"), nm + nc)))
+    vc.ensures("kernel_and_mean_see_the_parameter_positions", cov.got is pos and mean.got is pos)
+    vc.ensures("model_and_data_stored", vc.attr(obj, "A") is A and vc.attr(obj, "y") is y)
